@@ -252,3 +252,83 @@ def c07(work, tier, seed, replay):
 
 
 CHECKS["C07"] = c07
+
+
+# ----------------------------------------------------------------------------- C06
+
+def c06(work, tier, seed, replay):
+    import seqfam
+    rep = Report("C06", tier, seed, "fault_enumeration")
+    build_driver()
+    progs = scenario_programs(work)
+    hists = []
+    model_crash_states = 0
+    for scen, db in HIST.items():
+        c = ops_consts(scen, db, "Sql1", crash=1, driver_steps=True)
+        ops_model_check(work, rep, scen + "+crash", c)
+        sch = ops_list(work, scen, c)
+        ncr = sum(1 for s in sch if s["crashed"])
+        model_crash_states += ncr
+        rep.cov.setdefault("model_crash_behaviours", {})[scen] = ncr
+        pre = [x for x in seqfam.tofu_steps(db0_of(db), 2) if x["log"] == "l1"] if db == "s1" else []
+        steps = pre + [{"op": "update", "log": op["log"], "req": op["req"]} for op in progs[scen][0] if op["kind"] == "update"]
+        hists.append({"id": scen, "steps": steps})
+    hp, tp = work.path("hists.jsonl"), work.path("crash.ndjson")
+    write_runs(hp, OPS_PARAMS, hists)
+    nrand = 20 if tier == "quick" else 400
+    o, dt = run_driver(["crash", "-in", hp, "-out", tp, "-dir", work.sub("db"), "-random", str(nrand), "-seed", str(seed), "-workers", str(NCPU)], timeout=3000)
+    rep.notes.append(o.strip())
+    m = re.search(r"CRASH runs=(\d+) boundaries=(\d+)", o)
+    events = read_ndjson(tp)
+    c = dict(OPS_BASE)
+    c["TraceFile"] = tp
+    r = tlc(work, "MC_Trace_Crash", cfg_text(spec="Spec", constants=c, action_constraints=["Monitor"], postcondition="Done"), name="judge-crash", workers=1, timeout=1800, heap="8g")
+    if not r.ok:
+        raise Inconclusive("crash judge failed: %s\n%s" % (r.error or r.violated, r.out[-3000:]))
+    fails = [["FAIL", f["id"], f["name"], f["i"], f["run"], f["k"], f["sig"]] for f in map(json.loads, r.prints("FAIL"))]
+    seqfam.settle(rep, "C06", fails, events, c)
+    rec = [e for e in events if e["e"] == "recover"]
+    crashes = [e for e in events if e["e"] == "crash"]
+    rep.cov["traces_validated_against_impl"] = len(rec)
+    rep.cov["evaluations"] = len(rec)
+    rep.cov["driver_boundaries"] = int(m.group(2)) if m else 0
+    rep.cov["random_instant_kills"] = sum(1 for e in crashes if e["point"] < 0)
+    rep.cov["model_crash_states"] = model_crash_states
+    # distinct = distinct (history, kill boundary) plus distinct outcomes of random-instant kills
+    d = set()
+    inflight = 0
+    by_run = {}
+    for e in events:
+        by_run.setdefault(e["run"], []).append(e)
+    for run, evs in by_run.items():
+        cr = [e for e in evs if e["e"] == "crash"][0]
+        acks = [e for e in evs if e["e"] == "upd" and e["acked"]]
+        un = [e for e in evs if e["e"] == "upd" and not e["acked"]]
+        inflight += 1 if un else 0
+        rc = [e for e in evs if e["e"] == "recover"][0]
+        d.add(json.dumps([run.split("@")[0], cr["point"] if cr["point"] >= 0 else [len(acks), rc["stored"]]]))
+    rep.cov["distinct_nontrivial"] = len(d)
+    rep.cov["kills_with_an_update_in_flight"] = inflight
+    newer = 0
+    for run, evs in by_run.items():
+        un = [e for e in evs if e["e"] == "upd" and not e["acked"]]
+        rc = [e for e in evs if e["e"] == "recover"][0]
+        acks = [e for e in evs if e["e"] == "upd" and e["acked"] and e["v"] == "Accept"]
+        if un and acks and rc["stored"]["l1"] != acks[-1]["retcp"]:
+            newer += 1
+    rep.cov["recovered_the_unacknowledged_new_value"] = newer
+    rep.cov["rule"] = ("for each history (first use; first use+growth; first use+refresh; with refused requests; growth from a stored checkpoint) a dry run lists the real driver-operation boundaries "
+                       "(before and after each begin, query, exec, commit, rollback); one child process per boundary performs the history on a file-backed SQLite store through a wrapping driver and SIGKILLs "
+                       "itself there; plus random-instant kills from the parent; a fresh process reopens the file, reads the state and probes; judged by Trace_Crash (OldOrNew, AcknowledgedInForce, "
+                       "CompleteAndCosigned, RefusesForgedFirstUse, HonestAfterRestart); WitnessOps(Sql1, DriverSteps, Crash) is model-checked for the same histories; distinct = distinct (history, kill point)")
+    rep.cov["exhaustive"] = True
+    for run in list(by_run)[:2]:
+        rep.sample(by_run[run])
+    rep.assumptions += ["SQLite's atomic commit (tested here by process kills, not proved); power loss / lost page cache is out of scope",
+                        "the wrapping driver delegates transparently"]
+    if inflight < 2 or newer < 1:
+        raise Inconclusive("vacuous crash run: no kill hit an update in flight or none landed after the commit")
+    return rep.finish()
+
+
+CHECKS["C06"] = c06
